@@ -503,6 +503,14 @@ def kept_copies(UL, atoms):
             and forall(lambda t: implies(0 <= t and t < len(atoms), exists(lambda p: 0 <= p and p < len(UL) and akey(UL[p]) == akey(atoms[t]) and occ0(atoms[t]) <= occ0(UL[p])))))
 
 
+@spec
+def lost_at(UL, p, d):
+    """the kept copy at position p was compared with another kept copy q within the clash distance and did not have the higher occupancy"""
+    return exists(lambda q: 0 <= q and q < len(UL) and q != p and UL[p].occupancy is not None and UL[q].occupancy is not None
+                  and implies(p < q, close_atoms(UL[p], UL[q], d)) and implies(q < p, close_atoms(UL[q], UL[p], d))
+                  and some(UL[q].occupancy) >= some(UL[p].occupancy))
+
+
 class filter_single_c:
     """the single-model core (duplicate filter + clash filter).  Ghosts: UL = the kept copies in first-occurrence order of their keys (unique_atoms_list);
     E = the (arbitrary, set-iteration) order in which the surviving positions of UL are emitted"""
@@ -511,19 +519,23 @@ class filter_single_c:
     requires = ["forall(lambda t: implies(0 <= t and t < len(atoms), atoms[t].model == atoms[0].model))", "clash_distance >= 0"]
     returns = "list[rec[Atom]]"
     ensures = [
-        "len(E) == len(result) and forall(lambda r: implies(0 <= r and r < len(result), 0 <= E[r] and E[r] < len(UL) and result[r] == UL[E[r]])) and forall(lambda r, r2: implies(0 <= r and r < r2 and r2 < len(result), E[r] != E[r2]))",
+        # the result lists the surviving kept copies (positions KF of UL), each once, in the arbitrary order E of the set iteration
+        "len(E) == len(result) and forall(lambda r: implies(0 <= r and r < len(result), 0 <= E[r] and E[r] < len(UL) and E[r] in KF and result[r] == UL[E[r]])) and forall(lambda r, r2: implies(0 <= r and r < r2 and r2 < len(result), E[r] != E[r2])) and forall(lambda p: implies(p in KF, exists(lambda r: 0 <= r and r < len(result) and E[r] == p)))",
         "forall(lambda r: implies(0 <= r and r < len(result), exists(lambda t: 0 <= t and t < len(atoms) and result[r] == atoms[t])))",
         "forall(lambda r, r2: implies(0 <= r and r < r2 and r2 < len(result), akey(result[r]) != akey(result[r2])))",
         "forall(lambda r, t: implies(0 <= r and r < len(result) and 0 <= t and t < len(atoms) and akey(atoms[t]) == akey(result[r]), occ0(atoms[t]) <= occ0(result[r])))",
-        # any two distinct result atoms (named so that the first is the earlier kept copy) with known occupancies are farther apart
-        "forall(lambda r, r2: implies(0 <= r and r < len(result) and 0 <= r2 and r2 < len(result) and E[r] < E[r2] and UL[E[r]].occupancy is not None and UL[E[r2]].occupancy is not None, not close_atoms(UL[E[r]], UL[E[r2]], clash_distance)))",
+        # two surviving kept copies with known occupancies (a the earlier one) are not within the clash distance
+        "forall(lambda a, b: implies(0 <= a and a < b and b < len(UL) and a in KF and b in KF and UL[a].occupancy is not None and UL[b].occupancy is not None, not close_atoms(UL[a], UL[b], clash_distance)))",
     ]
+    ensures += ["forall(lambda p: implies(0 <= p and p < len(UL) and p not in KF, lost_at(UL, p, clash_distance)))",
+                "kept_copies(UL, atoms)"]
     ensures_labels = {0: "result-atoms-are-kept-copies-each-once", 1: "every-result-atom-is-an-input-atom", 2: "one-atom-per-residue-and-name",
-                      3: "the-highest-occupancy-copy", 4: "of-two-atoms-within-the-clash-distance-only-one"}
+                      3: "the-highest-occupancy-copy", 4: "of-two-atoms-within-the-clash-distance-only-one",
+                      5: "a-kept-copy-survives-unless-it-lost-a-clash-comparison", 6: "one-kept-copy-of-highest-occupancy-per-residue-and-name"}
     raises = []
     modifies = []
     locals = {"unique_atoms": "dict[" + KEY + ",rec[Atom]]", "result": "list[rec[Atom]]"}
-    ghost_entry = ["let UL = empty('list[rec[Atom]]')"]
+    ghost_entry = ["let UL = empty('list[rec[Atom]]')", "let LW = empty('dict[int,int]')", "let KF = empty('set[int]')"]
     loops = {
         0: {"inv": ["len(models) <= 1"]},  # the multi-model branch is not entered under this variant's precondition
         1: {"index": "n1", "inv": [
@@ -535,6 +547,8 @@ class filter_single_c:
         2: {"index": "n2", "seq": "PS", "inv": [
             "forall(lambda u: implies(u in atoms_to_keep, 0 <= u and u < len(unique_atoms_list)))",
             "forall(lambda m: implies(0 <= m and m < n2 and compared(unique_atoms_list, PS[m]), loser(unique_atoms_list, PS[m]) not in atoms_to_keep))",
+            # a discarded position lost the comparison of the pair PS[LW[u]]
+            "forall(lambda u: implies(0 <= u and u < len(unique_atoms_list) and u not in atoms_to_keep, 0 <= LW[u] and LW[u] < n2 and compared(unique_atoms_list, PS[LW[u]]) and loser(unique_atoms_list, PS[LW[u]]) == u))",
         ]},
     }
     ghost = [
@@ -552,8 +566,15 @@ class filter_single_c:
     ]
     ghost_exit = ["let E = last_enum()"]
     ghost += [
+        {"when": "after", "at": "atoms_to_keep.discard(j)", "loop": 2, "label": "j-lost", "do": ["let LW = dstore(LW, j, n2)"]},
+        {"when": "after", "at": "atoms_to_keep.discard(i)", "loop": 2, "label": "i-lost", "do": ["let LW = dstore(LW, i, n2)"]},
+        # both summaries of the clash loop are proved from the loop's own facts only: the KD-tree contract, the 4 facts of the pair
+        # enumeration, the index bounds, the 3 invariants and the exit condition (the last 10 hypotheses at this point)
         {"when": "before", "at": "return [unique_atoms_list[i] for i in atoms_to_keep]", "label": "no-clash-among-the-kept",
-         "do": ["assert forall(lambda a, b: implies(0 <= a and a < b and b < len(UL) and a in atoms_to_keep and b in atoms_to_keep and UL[a].occupancy is not None and UL[b].occupancy is not None, not close_atoms(UL[a], UL[b], clash_distance)))"]},
+         "do": ["assert_last 10 forall(lambda a, b: implies(0 <= a and a < b and b < len(UL) and a in atoms_to_keep and b in atoms_to_keep and UL[a].occupancy is not None and UL[b].occupancy is not None, not close_atoms(UL[a], UL[b], clash_distance)))"]},
+        {"when": "before", "at": "return [unique_atoms_list[i] for i in atoms_to_keep]", "label": "a-discarded-copy-lost-a-comparison",
+         "do": ["assert_last 11 forall(lambda p: implies(0 <= p and p < len(UL) and p not in atoms_to_keep, lost_at(UL, p, clash_distance)))",
+                "let KF = atoms_to_keep"]},
     ]
 
 
@@ -585,6 +606,21 @@ def G_no_clash(R, d):
                                         not close_atoms(R[r], R[r2], d) or not close_atoms(R[r2], R[r], d)))
 
 
+@spec
+def lost_clash(atoms, t, d):
+    """a copy s of atom t (same model, residue, name) was compared with another atom u of the model within the clash distance
+    whose occupancy is not lower"""
+    return exists(lambda s, u: 0 <= s and s < len(atoms) and 0 <= u and u < len(atoms) and same_slot(atoms[s], atoms[t])
+                  and atoms[u].model == atoms[s].model and atoms[s].occupancy is not None and atoms[u].occupancy is not None
+                  and (close_atoms(atoms[s], atoms[u], d) or close_atoms(atoms[u], atoms[s], d))
+                  and some(atoms[u].occupancy) >= some(atoms[s].occupancy))
+
+
+@spec
+def represented(R, a):
+    return exists(lambda r: 0 <= r and r < len(R) and same_slot(R[r], a))
+
+
 class filter_clashing_atoms_c(filter_single_c):
     """the whole function, any number of models (the multi-model branch calls the function itself: this contract is used for
     the recursive calls - partial correctness, termination of the recursion is NOT proved)"""
@@ -596,6 +632,9 @@ class filter_clashing_atoms_c(filter_single_c):
         "G_no_clash(result, clash_distance)",
         "len(result) >= 0",
     ]
+    # NOT part of this contract (out of reach, see props/C08.py): "every input atom is represented in the result unless a copy of
+    # it lost a clash comparison" across the recursion - the clause (represented(..) or lost_clash(..)) is a forall-exists-exists
+    # statement that re-triggers itself in the solver; it IS proved for one model in the variant @single (clauses 5 and 6)
     ensures_labels = {0: "every-result-atom-is-an-input-atom", 1: "one-atom-per-model-residue-and-name", 2: "the-highest-occupancy-copy",
                       3: "of-two-atoms-of-a-model-within-the-clash-distance-only-one", 4: "a-list"}
     loops = dict(filter_single_c.loops)
@@ -630,8 +669,14 @@ class parse_pdb_decode_c:
         # ... the last MODEL record before the atom's line (none: model 1)
         "len(MS) == len(D) and forall(lambda j: implies(0 <= j and j < len(D), 0 - 1 <= MS[j] and MS[j] < SRC[j] and implies(MS[j] >= 0, is_model_line(pdb.lines[MS[j]]))))",
         "forall(lambda j, l: implies(0 <= j and j < len(D) and MS[j] < l and l < SRC[j], not is_model_line(pdb.lines[l])))",
+        # the returned atoms are filter_clashing_atoms(D, 0.5) (that function's contract)
+        "G_from_input(result[0], D) and G_one_per_slot(result[0])",
+        "G_highest(result[0], D)",
+        "G_no_clash(result[0], 0.5)",
     ]
-    ensures_labels = {0: "decoded-atoms-come-from-ATOM-HETATM-records", 1: "in-file-order-each-once", 2: "every-ATOM-HETATM-record-is-decoded",
+    ensures_labels = {6: "returned-atoms-are-decoded-atoms-one-per-model-residue-and-name", 7: "the-highest-occupancy-copy-is-returned",
+                      8: "of-two-returned-atoms-of-a-model-within-0.5-A-only-one",
+                      0: "decoded-atoms-come-from-ATOM-HETATM-records", 1: "in-file-order-each-once", 2: "every-ATOM-HETATM-record-is-decoded",
                       3: "fields-exactly-as-written-in-the-PDB-columns", 4: "model-is-a-preceding-MODEL-record-or-1", 5: "model-is-the-LAST-preceding-MODEL-record"}
     raises = []
     modifies = []
